@@ -24,6 +24,11 @@ var styles = []string{
 	"absolute",            // control = <request URL>/trackID=k, Content-Base as the server
 	"absolute-otherhost",  // same with a foreign host in the control, no Content-Base
 	"leading-slash",       // control /trackID=k, no Content-Base
+	// the scheme: a control attribute is absolute when it carries EITHER RTSP scheme, whatever the connection's
+	"absolute-otherscheme",        // connection rtsp://, controls rtsps://<same>/trackID=k
+	"server-secure",               // connection rtsps://, otherwise as "server"
+	"absolute-secure",             // connection rtsps://, controls rtsps://.../trackID=k
+	"absolute-otherscheme-secure", // connection rtsps://, controls rtsp://.../trackID=k (camera behind a TLS terminator)
 	// camera styles: only what is well defined
 	"leading-slash-cb", // control /trackID=k, Content-Base with trailing slash: track only
 	"qmark-nocb",       // control ?ctype=video, no Content-Base
@@ -84,9 +89,21 @@ func runUnit(c unitCase) (f *failT, outcome string) {
 	}
 	spec := c.Spec
 	P, Q := spec.Path(), spec.Query()
-	up, err := base.ParseURL(spec.URL())
+	typed := spec.URL()
+	style := c.Style
+	if strings.HasSuffix(style, "-secure") {
+		typed = "rtsps" + strings.TrimPrefix(typed, "rtsp")
+		style = strings.TrimSuffix(style, "-secure")
+	}
+	otherScheme := func(u string) string {
+		if strings.HasPrefix(u, "rtsps://") {
+			return "rtsp" + strings.TrimPrefix(u, "rtsps")
+		}
+		return "rtsps" + strings.TrimPrefix(u, "rtsp")
+	}
+	up, err := base.ParseURL(typed)
 	if err != nil {
-		return fail("parse-error", "ParseURL(%q): %v", spec.URL(), err)
+		return fail("parse-error", "ParseURL(%q): %v", typed, err)
 	}
 	wireU, err := onWire(up)
 	if err != nil {
@@ -103,7 +120,7 @@ func runUnit(c unitCase) (f *failT, outcome string) {
 	record := strings.HasPrefix(c.Style, "record-")
 	ks := strconv.Itoa(c.K)
 
-	switch c.Style {
+	switch style {
 	case "server":
 		res.Header["Content-Base"] = base.HeaderValue{reqStr + "/"}
 		for i, m := range medias {
@@ -127,6 +144,11 @@ func runUnit(c unitCase) (f *failT, outcome string) {
 		res.Header["Content-Base"] = base.HeaderValue{reqStr + "/"}
 		for i, m := range medias {
 			m.Control = reqStr + "/trackID=" + strconv.Itoa(i)
+		}
+	case "absolute-otherscheme":
+		res.Header["Content-Base"] = base.HeaderValue{reqStr + "/"}
+		for i, m := range medias {
+			m.Control = otherScheme(reqStr) + "/trackID=" + strconv.Itoa(i)
 		}
 	case "absolute-otherhost":
 		for i, m := range medias {
@@ -217,7 +239,7 @@ func runUnit(c unitCase) (f *failT, outcome string) {
 		if rp != P || rq != Q {
 			return fail("path-mismatch", "RECORD analysis of %q: (%q, %q) want (%q, %q)", reqStr, rp, rq, P, Q)
 		}
-		return nil, "record " + strings.Replace(wm.String(), reqStr, "U", 1)
+		return nil, "record " + strings.Replace(strings.Replace(wm.String(), reqStr, "U", 1), otherScheme(reqStr), "U'", 1)
 	}
 
 	exact := true
@@ -242,7 +264,7 @@ func runUnit(c unitCase) (f *failT, outcome string) {
 				return fail("query-mismatch", "analysis of %q: query %q want %q", wm, q, "ctype="+ks)
 			}
 		}
-		return nil, "play " + strings.Replace(wm.String(), reqStr, "U", 1)
+		return nil, "play " + strings.Replace(strings.Replace(wm.String(), reqStr, "U", 1), otherScheme(reqStr), "U'", 1)
 	}
 	p, q, t, aerr := gortsplib.VerifC20GetPathAndQueryAndTrackID(wm)
 	if aerr != nil {
@@ -277,7 +299,7 @@ func runUnit(c unitCase) (f *failT, outcome string) {
 			return fail("play-query-mismatch", "analysis of PLAY URL %q: query %q want %q", wb, pq, Q)
 		}
 	}
-	return nil, "play " + strings.Replace(wm.String(), reqStr, "U", 1)
+	return nil, "play " + strings.Replace(strings.Replace(wm.String(), reqStr, "U", 1), otherScheme(reqStr), "U'", 1)
 }
 
 // (media count, media index) pairs of part B; closed under unitCase.simpler.
